@@ -757,14 +757,14 @@ func c20FullStop() (bool, string) {
 			}
 		}(w)
 	}
-	deadline := time.Now().Add(10 * time.Second)
+	deadline := time.Now().Add(40 * time.Second)
 	for atomic.LoadInt32(&acked) < 40 && time.Now().Before(deadline) {
 		time.Sleep(10 * time.Millisecond)
 	}
 	if atomic.LoadInt32(&acked) < 40 {
 		atomic.StoreInt32(&quit, 1)
 		s.Stop(nil)
-		return false, "the server did not acknowledge 40 writes within 10 s"
+		return false, "the server did not acknowledge 40 writes within 40 s"
 	}
 	s.Stop(nil) // while the writers are still at it
 	ok := true
